@@ -1345,27 +1345,51 @@ func (fc *FnCtx) execSend(st *State, x *ast.SendStmt) {
 // Channels are modelled for one protocol only: "close-only" channels. A package without any send statement
 // never sends on the channels it creates, and context.Context.Done() is documented to be closed, never sent on;
 // a receive from such a channel returns exactly when the channel has been closed, and yields the zero value.
-func (fc *FnCtx) closeOnlyPkg(pos token.Pos) {
-	if has, ok := fc.eng.hasSend[fc.pkg.PkgPath]; ok {
-		if has {
-			fc.fail(pos, "channel receive/select in a package that has send statements (only close-only channels are modelled)")
-		}
-		return
+func (fc *FnCtx) closeOnlyPkg(pos token.Pos) { fc.closeOnlyChan(nil, pos) }
+
+// sentNames: the final identifiers (field or variable names) of every channel expression that is the target of a
+// send statement somewhere in the package.
+func (fc *FnCtx) sentNames() map[string]bool {
+	if m, ok := fc.eng.sentOn[fc.pkg.PkgPath]; ok {
+		return m
 	}
-	has := false
+	m := map[string]bool{}
 	for _, f := range fc.pkg.Syntax {
 		ast.Inspect(f, func(n ast.Node) bool {
-			if _, ok := n.(*ast.SendStmt); ok {
-				has = true
+			if snd, ok := n.(*ast.SendStmt); ok {
+				m[chanExprName(snd.Chan)] = true
 			}
 			return true
 		})
 	}
-	fc.eng.hasSend[fc.pkg.PkgPath] = has
-	if has {
-		fc.fail(pos, "channel receive/select in a package that has send statements (only close-only channels are modelled)")
+	fc.eng.sentOn[fc.pkg.PkgPath] = m
+	return m
+}
+
+func chanExprName(e ast.Expr) string {
+	switch x := ast.Unparen(e).(type) {
+	case *ast.Ident:
+		return x.Name
+	case *ast.SelectorExpr:
+		return x.Sel.Name
+	case *ast.CallExpr:
+		return chanExprName(x.Fun) + "()"
 	}
-	fc.externsUsed["close-only channels: package "+fc.pkg.PkgPath+" has no send statement (syntactic scan), so a receive returns exactly when the channel is closed; context.Done() channels are closed, never sent on (documented)"] = true
+	return "?"
+}
+
+// closeOnlyChan: a receive is modelled only for close-only channels: no send statement of the package targets a
+// channel expression with the same final name (field / variable), and context.Done() channels.
+func (fc *FnCtx) closeOnlyChan(ch ast.Expr, pos token.Pos) {
+	sent := fc.sentNames()
+	if ch == nil {
+		if len(sent) > 0 {
+			return // checked per receive
+		}
+	} else if name := chanExprName(ch); sent[name] || name == "?" {
+		fc.fail(pos, "receive from channel %q which is (or may be) sent on in this package (only close-only channels are modelled)", name)
+	}
+	fc.externsUsed["close-only channels: no send statement of package "+fc.pkg.PkgPath+" targets the channels received from here (syntactic scan by field/variable name), so a receive returns exactly when the channel is closed; context.Done() channels are closed, never sent on (documented)"] = true
 }
 
 func (fc *FnCtx) chanClosedTerm(st *State, ch string) string {
@@ -1374,7 +1398,7 @@ func (fc *FnCtx) chanClosedTerm(st *State, ch string) string {
 
 // recvFrom: a blocking receive that has returned: the channel is closed.
 func (fc *FnCtx) recvFrom(st *State, chExpr ast.Expr, pos token.Pos) (Val, types.Type) {
-	fc.closeOnlyPkg(pos)
+	fc.closeOnlyChan(chExpr, pos)
 	ch := fc.eval1(st, chExpr)
 	ct, ok := ch.Ty.Underlying().(*types.Chan)
 	if !ok {
@@ -1457,6 +1481,7 @@ func (fc *FnCtx) execSelect(st *State, x *ast.SelectStmt, label string) *Outcome
 				}
 			}
 		}
+		fc.closeOnlyChan(u.X, cl.Pos())
 		cases = append(cases, rcase{cl, fc.eval1(st, u.X)})
 	}
 	if def == nil {
